@@ -2,6 +2,7 @@ package props
 
 import (
 	"bufio"
+	"bytes"
 	"encoding/binary"
 	"encoding/json"
 	"fmt"
@@ -255,6 +256,24 @@ func c15Enum(thorough bool, f func(k c15Case)) {
 			emit("Points", points(v, n))
 		}
 	}
+	// remote name listings (answers to /items and /files): every string of length <= 5 over a small alphabet and some
+	// longer ones with empty lines, bare carriage returns and a missing final newline
+	var rec func(prefix []byte, n int)
+	rec = func(prefix []byte, n int) {
+		emit("remote-items", prefix)
+		emit("remote-files", prefix)
+		if n == 0 {
+			return
+		}
+		for _, ch := range []byte("a.\n\r/") {
+			rec(append(append([]byte{}, prefix...), ch), n-1)
+		}
+	}
+	rec(nil, 5)
+	for _, s := range []string{"a.b\n\nc.d\n", "a.b\n\n", "\n\na.b", "a.b\r\n\r\nc.d\r\n", "a.b\nc.d", "\r", "a.b\n\r\n", strings.Repeat("\n", 300), strings.Repeat("x", 70000)} {
+		emit("remote-items", []byte(s))
+		emit("remote-files", []byte(s))
+	}
 	// remote responses: header + per-archive series / point lists, mutated in the element framing
 	for _, h := range headers[:2] {
 		k := (len(h) - 16) / 12
@@ -282,6 +301,16 @@ func c15Enum(thorough bool, f func(k c15Case)) {
 			b := append([]byte{}, goodP...)
 			binary.BigEndian.PutUint64(b[len(h):], v)
 			emit("remote-view-raw", b)
+		}
+		// the same answers behind an HTTP framing that lies: the announced Content-Length (first 8 bytes of the case)
+		// is larger than the body the connection delivers before it is closed
+		for _, declared := range []uint64{uint64(len(goodS)) + 1, 1 << 20, 1 << 28, 1 << 34} {
+			for _, body := range [][]byte{goodS, goodS[:40], {}} {
+				b := make([]byte, 8, 8+len(body))
+				binary.BigEndian.PutUint64(b, declared)
+				emit("remote-view-lying-length", append(b, body...))
+				emit("remote-view-raw-lying-length", append(append([]byte{}, b...), goodP[:len(body)*len(goodP)/len(goodS)]...))
+			}
 		}
 		for fld := 0; fld < 4; fld++ {
 			for _, v := range e32 {
@@ -326,6 +355,52 @@ func startStub() *c15Stub {
 		w.Header().Set("Content-Type", "application/octet-stream")
 		w.Write(st.body.Load().([]byte))
 	}))
+	return st
+}
+
+// the raw stub answers every request with the announced Content-Length it is told to lie about, the body, and a
+// closed connection
+type c15RawStub struct {
+	declared atomic.Uint64
+	body     atomic.Value
+	url      string
+}
+
+var c15Raw *c15RawStub
+
+func startRawStub() *c15RawStub {
+	if c15Raw != nil {
+		return c15Raw
+	}
+	ln, err := net.Listen("tcp", "127.0.0.1:0")
+	if err != nil {
+		return nil
+	}
+	st := &c15RawStub{url: "http://" + ln.Addr().String()}
+	st.body.Store([]byte{})
+	go func() {
+		for {
+			conn, err := ln.Accept()
+			if err != nil {
+				return
+			}
+			go func(conn net.Conn) {
+				defer conn.Close()
+				buf := make([]byte, 4096)
+				n := 0
+				for !bytes.Contains(buf[:n], []byte("\r\n\r\n")) && n < len(buf) {
+					m, err := conn.Read(buf[n:])
+					if err != nil {
+						return
+					}
+					n += m
+				}
+				fmt.Fprintf(conn, "HTTP/1.1 200 OK\r\nContent-Type: application/octet-stream\r\nContent-Length: %d\r\nConnection: close\r\n\r\n", st.declared.Load())
+				conn.Write(st.body.Load().([]byte))
+			}(conn)
+		}
+	}()
+	c15Raw = st
 	return st
 }
 
@@ -394,6 +469,42 @@ func c15RunCase(dir string, stub *c15Stub, k c15Case) (class string, alloc uint6
 				db.FetchFromArchive(id, 0, now, now)
 			}
 			db.Sync()
+		case "remote-items", "remote-files":
+			if stub == nil {
+				class = "skip"
+				return
+			}
+			stub.body.Store(data)
+			var err error
+			if k.Target == "remote-items" {
+				c := &wcmd.SumCommand{SrcBase: stub.url, ItemPattern: "a*", SrcPattern: "*.wsp", ArchiveID: -1, TextOut: ""}
+				err = c.Execute()
+			} else {
+				c := &wcmd.DiffCommand{SrcBase: stub.url, SrcRelPath: "a/*.wsp", DestBase: filepath.Join(dir, "no-such-dest"), ArchiveID: -1, TextOut: ""}
+				err = c.Execute()
+			}
+			if err != nil {
+				class = "err"
+			}
+		case "remote-view-lying-length", "remote-view-raw-lying-length":
+			raw := startRawStub()
+			if raw == nil || len(data) < 8 {
+				class = "skip"
+				return
+			}
+			raw.declared.Store(binary.BigEndian.Uint64(data))
+			raw.body.Store(data[8:])
+			var err error
+			if k.Target == "remote-view-lying-length" {
+				c := &wcmd.ViewCommand{SrcBase: raw.url, SrcRelPath: "a.wsp", ArchiveID: -1, TextOut: ""}
+				err = c.Execute()
+			} else {
+				c := &wcmd.ViewRawCommand{SrcBase: raw.url, SrcRelPath: "a.wsp", ArchiveID: -1, TextOut: ""}
+				err = c.Execute()
+			}
+			if err != nil {
+				class = "err"
+			}
 		case "remote-view", "remote-view-raw":
 			if stub == nil {
 				class = "skip"
@@ -466,7 +577,11 @@ func c15Judge(k c15Case, class string, alloc uint64, inLen int) (sig, desc strin
 	}
 	bound := uint64(64<<10 + 64*inLen)
 	if strings.HasPrefix(k.Target, "remote") {
-		bound = 1<<20 + 64*uint64(inLen)
+		bound = 1<<20 + 64*uint64(inLen) // (the announced length of a lying framing is not input received)
+		if k.Target == "remote-items" || k.Target == "remote-files" {
+			// every listed name costs one further HTTP request, whose transport allocates by itself
+			bound += 32 << 10 * uint64(1+strings.Count(string(unhex(k.Data)), "\n"))
+		}
 	}
 	if alloc > bound {
 		return "C15/" + k.Target + "/allocation", fmt.Sprintf("%s on %d bytes %s allocated %d bytes (bound %d); result %s", k.Target, inLen, clip(k.Data, 120), alloc, bound, class)
